@@ -52,9 +52,13 @@ package logic
 // version rules, MinInnerApplVersion) and consensus-parameter gating (Proto.LogicSigVersion < v);
 // field *values*; more than one gated instruction per program.
 //
-// Detection (bin/mut, all DETECTED, see report): OpSpec addw Version 2->1; global LogicSigVersion
-// field version 2->0; checkBranch back-branch instructionStarts test removed; ed25519verify v1
-// only(ModeSig) dropped... (kept in sync with the final report).
+// Detection (bin/mut ... --only, quick tier; all DETECTED):
+//   1. opcodes.go  OpSpec addw registered with Version 1 instead of 2        -> spec-vs-table + not-gated
+//   2. fields.go   global field LogicSigVersion version 2 -> 0 (omitted)      -> spec-vs-table + not-gated
+//   3. eval.go     checkBranch: back-branch instructionStarts test disabled   -> branch:accepted-illegal-target
+//   4. opcodes.go  gload loses .only(ModeApp)                                 -> spec-vs-table + not-gated (sig mode)
+//   5. eval.go     txnFieldToStack: v5 "effects only through itxn" test off   -> not-gated (needs the examined
+//                  call to be the 2nd group member reading gtxn 0 Logs)
 //
 // Unexported identifiers used: OpSpecs, opsByOpcode (indirectly through Check/Eval), OpSpec.op,
 // immediate.kind/Group, immKind constants, FieldGroup.specs via SpecByName, ItxnSettableFields,
@@ -431,10 +435,10 @@ func c34Program(v uint64, c c34Case, s *OpSpec, app bool) ([]byte, int) {
 }
 
 type c34Expect struct {
-	reject  bool
-	why     string // reason of the expected rejection
-	either  bool   // bracketed: no demand
-	known   bool   // the reference has an opinion (langspec or table)
+	reject bool
+	why    string // reason of the expected rejection
+	either bool   // bracketed: no demand
+	known  bool   // the reference has an opinion (langspec or table)
 }
 
 type c34Refs struct {
@@ -698,7 +702,7 @@ func c34Part1(t *testing.T, r *ve.Run, refs *c34Refs) {
 					if disagreements.Add(1) <= 3 {
 						r.Report(fmt.Sprintf("C34:spec-vs-table:%s", c.String()),
 							fmt.Sprintf("langspec_v%d and the opcode/field tables disagree for %s at v%d app=%v: langspec says reject=%v (%s), tables say reject=%v (%s)",
-								v, c34Name(c, s), v, app, el.reject, el.why, et.reject, et.why), replay)
+								max(v, 1), c34Name(c, s), v, app, el.reject, el.why, et.reject, et.why), replay)
 					}
 				}
 			}
@@ -818,7 +822,7 @@ func c34Name(c c34Case, s *OpSpec) string {
 type c34Instr struct {
 	name   string
 	opcode byte
-	labels int // number of label slots
+	labels int  // number of label slots
 	kind   byte // 'b' branch (b/bz/bnz/callsub), 's' switch/match, 'o' other
 	intro  uint64
 	body   []byte // for 'o'
@@ -981,134 +985,144 @@ func c34Part2(t *testing.T, r *ve.Run) {
 	proto := makeTestProto(func(p *config.ConsensusParams) { p.LogicSigMaxCost = 60 })
 	var programs, accepted, rejected, misalignedRejected, taken, unenc atomic.Int64
 	var fails atomic.Int64
-	r.ParallelFor(len(shapes)*versions, func(i int) {
-		shape := shapes[i/versions]
-		v := uint64(i % versions)
-		if !ve.Thorough() && len(shape) == 4 && !quickV4[int(v)] {
-			return
-		}
-		nslots := 0
-		for _, ai := range shape {
-			nslots += c34Alphabet[ai].labels
-		}
-		if nslots == 0 {
-			return
-		}
-		classes := map[string]struct{}{}
-		var nProg, nAcc, nRej, nMis, nUnenc int64
-		var txn transactions.SignedTxn
-		txn.Txn.Type = protocol.PaymentTx
-		one := func(targets []int, padded int) {
-			prog, lay, ok := c34Assemble(v, shape, targets, padded)
-			if !ok {
-				nUnenc++
+	// pass 0 = the quick-tier bound; pass 1 (thorough only) = the remaining versions of the
+	// 4-instruction shapes, so that a capped thorough run still covers the quick bound.
+	passes := 1
+	if ve.Thorough() {
+		passes = 2
+	}
+	for pass := 0; pass < passes; pass++ {
+		pass := pass
+		r.ParallelFor(len(shapes)*versions, func(i int) {
+			shape := shapes[i/versions]
+			v := uint64(i % versions)
+			extra := len(shape) == 4 && !quickV4[int(v)]
+			if extra != (pass == 1) {
 				return
 			}
-			nProg++
-			want, why := c34RefCheck(v, shape, targets, lay)
-			txn.Lsig.Logic = prog
-			ep := NewSigEvalParams([]transactions.SignedTxn{txn}, proto, &NoHeaderLedger{})
-			checkErr := CheckSignature(0, ep)
-			replay := func() any {
-				names := make([]string, len(shape))
-				for k, ai := range shape {
-					names[k] = c34Alphabet[ai].name
+			nslots := 0
+			for _, ai := range shape {
+				nslots += c34Alphabet[ai].labels
+			}
+			if nslots == 0 {
+				return
+			}
+			classes := map[string]struct{}{}
+			var nProg, nAcc, nRej, nMis, nUnenc int64
+			var txn transactions.SignedTxn
+			txn.Txn.Type = protocol.PaymentTx
+			one := func(targets []int, padded int) {
+				prog, lay, ok := c34Assemble(v, shape, targets, padded)
+				if !ok {
+					nUnenc++
+					return
 				}
-				return map[string]any{"part": 2, "version": v, "shape": names, "targets": append([]int{}, targets...), "padded": padded, "program": fmt.Sprintf("%x", prog)}
-			}
-			if _, isPanic := checkErr.(panicError); isPanic {
-				r.Report("C34:branch:panic", fmt.Sprintf("Check panicked: %v", checkErr), replay())
-				return
-			}
-			if (checkErr == nil) != want {
-				if fails.Add(1) <= 4 {
-					key := "C34:branch:accepted-illegal-target"
-					if want {
-						key = "C34:branch:rejected-legal-target"
+				nProg++
+				want, why := c34RefCheck(v, shape, targets, lay)
+				txn.Lsig.Logic = prog
+				ep := NewSigEvalParams([]transactions.SignedTxn{txn}, proto, &NoHeaderLedger{})
+				checkErr := CheckSignature(0, ep)
+				replay := func() any {
+					names := make([]string, len(shape))
+					for k, ai := range shape {
+						names[k] = c34Alphabet[ai].name
 					}
-					r.Report(key, fmt.Sprintf("%v: reference accept=%v (%s) but Check says %v", replay(), want, why, checkErr), replay())
+					return map[string]any{"part": 2, "version": v, "shape": names, "targets": append([]int{}, targets...), "padded": padded, "program": fmt.Sprintf("%x", prog)}
 				}
-				return
-			}
-			if want {
-				nAcc++
-			} else {
-				nRej++
-			}
-			// execution: always when Check accepted; for rejected programs only on the shorter shapes
-			// (evidence that Check is what keeps execution aligned, not an oracle)
-			if checkErr != nil && len(shape) > 3 {
-				classes["reject/not-executed"] = struct{}{}
-				return
-			}
-			ep = NewSigEvalParams([]transactions.SignedTxn{txn}, proto, &NoHeaderLedger{})
-			tr := &c34PcTracer{}
-			ep.Tracer = tr
-			_, cx, evalErr := EvalSignatureFull(0, ep)
-			if _, isPanic := evalErr.(panicError); isPanic {
-				r.Report("C34:branch:panic", fmt.Sprintf("Eval panicked: %v", evalErr), replay())
-				return
-			}
-			pcs := tr.pcs
-			if evalErr == nil && cx != nil {
-				pcs = append(pcs, cx.pc)
-			}
-			bad := c34Misaligned(v, shape, targets, lay, pcs, &taken)
-			if bad != "" {
-				if checkErr == nil {
+				if _, isPanic := checkErr.(panicError); isPanic {
+					r.Report("C34:branch:panic", fmt.Sprintf("Check panicked: %v", checkErr), replay())
+					return
+				}
+				if (checkErr == nil) != want {
 					if fails.Add(1) <= 4 {
-						r.Report("C34:branch:exec-disagrees-with-check", fmt.Sprintf("%v accepted by Check but execution %s (pcs %v, err %v)", replay(), bad, pcs, evalErr), replay())
+						key := "C34:branch:accepted-illegal-target"
+						if want {
+							key = "C34:branch:rejected-legal-target"
+						}
+						r.Report(key, fmt.Sprintf("%v: reference accept=%v (%s) but Check says %v", replay(), want, why, checkErr), replay())
 					}
+					return
+				}
+				if want {
+					nAcc++
 				} else {
-					nMis++
+					nRej++
+				}
+				// execution: always when Check accepted; for rejected programs only on the shorter shapes
+				// (evidence that Check is what keeps execution aligned, not an oracle)
+				if checkErr != nil && len(shape) > 3 {
+					classes["reject/not-executed"] = struct{}{}
+					return
+				}
+				ep = NewSigEvalParams([]transactions.SignedTxn{txn}, proto, &NoHeaderLedger{})
+				tr := &c34PcTracer{}
+				ep.Tracer = tr
+				_, cx, evalErr := EvalSignatureFull(0, ep)
+				if _, isPanic := evalErr.(panicError); isPanic {
+					r.Report("C34:branch:panic", fmt.Sprintf("Eval panicked: %v", evalErr), replay())
+					return
+				}
+				pcs := tr.pcs
+				if evalErr == nil && cx != nil {
+					pcs = append(pcs, cx.pc)
+				}
+				bad := c34Misaligned(v, shape, targets, lay, pcs, &taken)
+				if bad != "" {
+					if checkErr == nil {
+						if fails.Add(1) <= 4 {
+							r.Report("C34:branch:exec-disagrees-with-check", fmt.Sprintf("%v accepted by Check but execution %s (pcs %v, err %v)", replay(), bad, pcs, evalErr), replay())
+						}
+					} else {
+						nMis++
+					}
+				}
+				cls := "reject"
+				if want {
+					cls = "accept"
+				}
+				if bad != "" {
+					cls += "/exec-misaligned"
+				} else if evalErr != nil {
+					cls += "/exec-err"
+				} else {
+					cls += "/exec-ok"
+				}
+				classes[cls] = struct{}{}
+			}
+			def := make([]int, nslots)
+			for s := 0; s < nslots; s++ {
+				for _, padded := range []int{-1, s} {
+					if padded >= 0 && (v < varintBranchVersion || !c34SlotIsBranch(shape, s)) {
+						continue
+					}
+					base := c34Defaults(v, shape, padded)
+					_, lay2, _ := c34Assemble(v, shape, base, padded)
+					for tgt := -2; tgt <= lay2.length+2; tgt++ {
+						copy(def, base)
+						def[s] = tgt
+						one(def, padded)
+					}
 				}
 			}
-			cls := "reject"
-			if want {
-				cls = "accept"
-			}
-			if bad != "" {
-				cls += "/exec-misaligned"
-			} else if evalErr != nil {
-				cls += "/exec-err"
-			} else {
-				cls += "/exec-ok"
-			}
-			classes[cls] = struct{}{}
-		}
-		def := make([]int, nslots)
-		for s := 0; s < nslots; s++ {
-			for _, padded := range []int{-1, s} {
-				if padded >= 0 && (v < varintBranchVersion || !c34SlotIsBranch(shape, s)) {
-					continue
-				}
-				base := c34Defaults(v, shape, padded)
-				_, lay2, _ := c34Assemble(v, shape, base, padded)
-				for tgt := -2; tgt <= lay2.length+2; tgt++ {
-					copy(def, base)
-					def[s] = tgt
-					one(def, padded)
+			if nslots == 2 && len(shape) <= 3 {
+				_, lay, _ := c34Assemble(v, shape, c34Defaults(v, shape, -1), -1)
+				for t0 := -2; t0 <= lay.length+2; t0++ {
+					for t1 := -2; t1 <= lay.length+2; t1++ {
+						one([]int{t0, t1}, -1)
+					}
 				}
 			}
-		}
-		if nslots == 2 && len(shape) <= 3 {
-			_, lay, _ := c34Assemble(v, shape, c34Defaults(v, shape, -1), -1)
-			for t0 := -2; t0 <= lay.length+2; t0++ {
-				for t1 := -2; t1 <= lay.length+2; t1++ {
-					one([]int{t0, t1}, -1)
-				}
+			for k := range classes {
+				r.Class(fmt.Sprintf("branch|v%d|%s", v, k))
 			}
-		}
-		for k := range classes {
-			r.Class(fmt.Sprintf("branch|v%d|%s", v, k))
-		}
-		r.EvalN(int(nProg))
-		programs.Add(nProg)
-		accepted.Add(nAcc)
-		rejected.Add(nRej)
-		misalignedRejected.Add(nMis)
-		unenc.Add(nUnenc)
-	})
+			r.EvalN(int(nProg))
+			programs.Add(nProg)
+			accepted.Add(nAcc)
+			rejected.Add(nRej)
+			misalignedRejected.Add(nMis)
+			unenc.Add(nUnenc)
+		})
+	}
 	r.Set("part2_shapes", len(shapes))
 	r.Set("part2_programs", programs.Load())
 	r.Set("part2_check_accepts", accepted.Load())
